@@ -298,6 +298,10 @@ class FluidPropertyInterExtra(FluidProperty):
     def to_dict(self):
         d = super(FluidPropertyInterExtra, self).to_dict()
         d.update({k: self.prop_getter.__dict__[k] for k in self.prop_getter_entries.keys()})
+        fill_value = d["_fill_value_orig"]
+        if isinstance(fill_value, np.ndarray) and fill_value.ndim == 0:
+            # interp1d keeps its default fill value as a 0-d array, which cannot be serialized
+            d["_fill_value_orig"] = fill_value.item()
         # d.update({"x_values": self.prop_getter.x, "y_values": self.prop_getter.y,
         #           "method": "interpolate_extrapolate"
         #           if self.prop_getter.fill_value == "extrapolate" else None})
